@@ -240,17 +240,25 @@ def install(E):
         raise Undecidable('unwrap_or on %r' % (v,), e['loc'])
     S['std::result::Result::unwrap_or'] = unwrap_or
     S['std::option::Option::unwrap_or'] = unwrap_or
-    def sat(sign):
+    def sat(sign, unsigned=False):
         def h(I, args, e, c):
             a, b = args
             if isinstance(a, VInt) and isinstance(b, VInt):
                 I.events.append(('saturating', e['loc']))
+                if unsigned and sign < 0:
+                    # an unsigned subtraction saturates at 0, a value counts do take: a - b when b <= a, else 0 (case split)
+                    if I.truth(VBool(('le0', b.lin - a.lin)), e['loc']): return VInt(a.lin - b.lin)
+                    return VInt(a.lin - a.lin)
+                # the upper ends (and i64::MIN) are beyond every count: exact arithmetic there
                 return VInt(a.lin + b.lin if sign > 0 else a.lin - b.lin)
             raise Undecidable('saturating op', e['loc'])
         return h
-    for t in ('i64', 'isize', 'i32', 'usize', 'u64'):
+    for t in ('i64', 'isize', 'i32'):
         S['core::num::<impl %s>::saturating_add' % t] = sat(1)
         S['core::num::<impl %s>::saturating_sub' % t] = sat(-1)
+    for t in ('usize', 'u64', 'u32'):
+        S['core::num::<impl %s>::saturating_add' % t] = sat(1)
+        S['core::num::<impl %s>::saturating_sub' % t] = sat(-1, True)
 
     # ---- RefCell / HashMap (unique table `nodes`, BDDSet.bdd) ----
     def cell_content(I, cell, e, inner_ty):
@@ -291,6 +299,10 @@ def install(E):
         I.events.append(('cell_write', cell.key, ('leaf', False), e['loc']))
         return old
     S['std::cell::RefCell::take'] = cell_take
+    def cell_into_inner(I, args, e, c):
+        # consumes the cell and yields what it holds (no borrow is taken: the cell is owned)
+        return cell_content(I, args[0], e, e['ty'])
+    S['std::cell::RefCell::into_inner'] = cell_into_inner
     S['std::cell::RefCell::new'] = cell_new
 
     def hm_get(I, args, e, c):
